@@ -150,6 +150,11 @@ func c10Catalogue() []c10Offence {
 			}
 			return raw(wire.THeaders, wire.FEndHeaders|wire.FEndStream, next, blk)
 		}},
+		// not an offence: the peer itself says GOAWAY(NO_ERROR). The server winds the connection down the same way - a GOAWAY of
+		// its own that tells the truth, no stream opened after it, the requests in progress answered, then ServeConn returns
+		{"peer-goaway-no-error", []uint32{0}, func(rng *rand.Rand, p *rt.Peer, next, open uint32) []byte {
+			return rt.GoAway([]uint32{0, 2, 1<<31 - 1}[rng.Intn(3)], 0, "client going away")
+		}},
 		{"undecodable-header-block", []uint32{eCompress}, func(rng *rand.Rand, p *rt.Peer, next, open uint32) []byte {
 			bad := [][]byte{{0x80}, {0xff, 0xff, 0xff, 0xff, 0xff, 0xff, 0xff, 0xff, 0xff, 0xff, 0xff, 0x01}, {0xbf, 0x7f}, {0x00, 0x85, 'a'}, {0x3f, 0xe1, 0xff, 0x7f}}[rng.Intn(5)]
 			return raw(wire.THeaders, wire.FEndHeaders|wire.FEndStream, next, bad)
